@@ -370,6 +370,25 @@ func (g *GateResult) atomOf(cond ssa.Value) (*atom, bool) {
 		}
 		return nil, false
 	}
+	if ex, ok := cond.(*ssa.Extract); ok {
+		if call, ok := ex.Tuple.(*ssa.Call); ok && g.InModule != nil {
+			// `n, ok := sizeFor(x)`: the last result of a one-argument predicate of the module
+			if f := call.Call.StaticCallee(); f != nil && g.InModule(f) && len(call.Call.Args) == 1 && len(f.Params) == 1 && len(f.Blocks) > 0 && ex.Index == f.Signature.Results().Len()-1 {
+				if bt, isB := ex.Type().Underlying().(*types.Basic); isB && bt.Kind() == types.Bool {
+					if e := g.derive(call.Call.Args[0], 0); e != nil && len(e.ops) == 0 {
+						if ps := g.predicate(f); ps != nil {
+							a := &atom{e: e, op: token.EQL, pred: ps}
+							if neg {
+								a.op = token.NEQ
+							}
+							return a, true
+						}
+					}
+				}
+			}
+			return nil, false
+		}
+	}
 	if ex, ok := cond.(*ssa.Extract); ok && ex.Index == 1 {
 		if lk, ok := ex.Tuple.(*ssa.Lookup); ok && lk.CommaOk && g.Tables != nil {
 			if gl := loadedGlobal(lk.X); gl != nil {
@@ -744,6 +763,12 @@ func AnalyseGate(fn *ssa.Function, subjects map[ssa.Value]bool, defBlock *ssa.Ba
 				}
 				outs[0] = g.refine(in, a, true)
 				outs[1] = g.refine(in, a, false)
+			} else if t, f, ok := g.flagSets(ifi.Cond, b); ok {
+				// a boolean flag set on the branches of earlier tests of the size
+				// (`valid := false; switch n { case 16: valid = true … }; if !valid`): it is true
+				// exactly for the sizes that arrive over the edges that carry `true`
+				outs[0] = in.Intersect(t)
+				outs[1] = in.Intersect(f)
 			} else if g.dependsOnSubject(ifi.Cond, 0) && !atomSeen[b] {
 				atomSeen[b] = true
 				g.Opaque = append(g.Opaque, ifi)
@@ -763,6 +788,45 @@ func AnalyseGate(fn *ssa.Function, subjects map[ssa.Value]bool, defBlock *ssa.Ba
 		}
 	}
 	return g
+}
+
+// flagSets: cond is (a negation of) a φ of boolean constants in a block that is b or
+// dominates b; returns the subject values that can make it true / false, from the reach sets
+// of the φ's incoming edges.
+func (g *GateResult) flagSets(cond ssa.Value, b *ssa.BasicBlock) (t, f ZSet, ok bool) {
+	neg := false
+	for {
+		u, isNot := cond.(*ssa.UnOp)
+		if !isNot || u.Op != token.NOT {
+			break
+		}
+		neg = !neg
+		cond = u.X
+	}
+	phi, isPhi := cond.(*ssa.Phi)
+	if !isPhi {
+		return t, f, false
+	}
+	pb := phi.Block()
+	if pb != b && !pb.Dominates(b) {
+		return t, f, false
+	}
+	for i, p := range pb.Preds {
+		c, isConst := phi.Edges[i].(*ssa.Const)
+		if !isConst || c.Value == nil || c.Value.Kind() != constant.Bool {
+			return t, f, false
+		}
+		e := g.Edge[[2]*ssa.BasicBlock{p, pb}]
+		if g.Pre[p] {
+			return t, f, false
+		}
+		if constant.BoolVal(c.Value) != neg {
+			t = t.Union(e)
+		} else {
+			f = f.Union(e)
+		}
+	}
+	return t, f, true
 }
 
 // refineByEnumeration handles atoms over constant tables: the candidate subject values
@@ -884,10 +948,10 @@ func (g *GateResult) predicate(f *ssa.Function) *predSets {
 	ri := res.Len() - 1
 	if ri >= 0 && isErrorType(res.At(ri).Type()) {
 		isErr = true
-	} else if res.Len() != 1 {
+	} else if ri < 0 {
 		return nil
-	} else if b, ok := res.At(0).Type().Underlying().(*types.Basic); !ok || b.Kind() != types.Bool {
-		return nil
+	} else if b, ok := res.At(ri).Type().Underlying().(*types.Basic); !ok || b.Kind() != types.Bool {
+		return nil // (a bool predicate may have other results before the bool: `(size, ok)`)
 	}
 	lo, hi := int64(math.MinInt64), int64(math.MaxInt64)
 	if g.Bits == 32 {
